@@ -390,3 +390,71 @@ def tight_bounds(contours):
     if not xs:
         return None
     return (min(xs), min(ys), max(xs), max(ys))
+
+
+# ---------------------------------------------------------------------------
+# distance-based comparison (used when rounding may legitimately change the
+# segment structure, e.g. a sub-unit segment collapsing after scaling)
+
+
+def flatten(contours, n=12):
+    """List of polylines (one per contour), curves sampled at n steps."""
+    out = []
+    for c in contours:
+        pts = []
+        for s in c["segs"]:
+            if not pts:
+                pts.append(s[1])
+            if s[0] == "L":
+                pts.append(s[2])
+            else:
+                for i in range(1, n + 1):
+                    pts.append(_eval(s, i / n))
+        if not pts:
+            pts = [c["start"]]
+        out.append(pts)
+    return out
+
+
+def _pt_seg_dist2(p, a, b):
+    ax, ay = a
+    bx, by = b
+    px, py = p
+    dx, dy = bx - ax, by - ay
+    L = dx * dx + dy * dy
+    if L == 0:
+        return (px - ax) ** 2 + (py - ay) ** 2
+    t = ((px - ax) * dx + (py - ay) * dy) / L
+    t = 0.0 if t < 0 else 1.0 if t > 1 else t
+    qx, qy = ax + t * dx, ay + t * dy
+    return (px - qx) ** 2 + (py - qy) ** 2
+
+
+def hausdorff_polylines(PA, PB):
+    """Two-sided Hausdorff distance between unions of polylines (vertex-to-polyline)."""
+
+    def one(P, Q):
+        segs = []
+        for q in Q:
+            if len(q) == 1:
+                segs.append((q[0], q[0]))
+            segs.extend(zip(q, q[1:]))
+        worst = 0.0
+        for poly in P:
+            for p in poly:
+                best = min((_pt_seg_dist2(p, a, b) for a, b in segs), default=float("inf"))
+                if best > worst:
+                    worst = best
+        return math.sqrt(worst)
+
+    if not PA and not PB:
+        return 0.0
+    if not PA or not PB:
+        return float("inf")
+    return max(one(PA, PB), one(PB, PA))
+
+
+def outline_distance(A, B, n=12):
+    """Hausdorff distance between the flattened outlines (contour count must match for closedness
+    to be meaningful; callers decide)."""
+    return hausdorff_polylines(flatten(A, n), flatten(B, n))
